@@ -53,15 +53,18 @@ def _kw(i: int):
 
 
 def mkargs(spec: List[Tuple[int, int]]):
-    """Arguments in a libcst-valid order: positional (possibly starred) before keywords; no keyword twice."""
+    """Arguments in a libcst-valid order: positional (possibly *starred) before keywords and ** expansions; no
+    keyword twice."""
     out, seen_kw, kws = [], False, set()
     k = 0
     for ksel, star in spec:
         kw = _kw(ksel)
         if kw is None:
-            if seen_kw:
+            st = "*" if star % 3 == 1 else ("**" if star % 3 == 2 else "")
+            if seen_kw and st != "**":
                 return None
-            st = "*" if star % 2 == 1 else ""
+            if st == "**":
+                seen_kw = True  # nothing positional may follow a ** expansion
             out.append(cst.Arg(value=cst.Name("p%d" % k), star=st))
         else:
             if kw in kws:
@@ -419,7 +422,7 @@ SPEC = {
         "the complete real transformer chains of 15 detector-driven hardening codemods (requests-verify, add-requests-timeouts, harden-pyyaml, harden-ruamel, jwt-decode-verify, enable-jinja2-autoescape, safe-lxml-parser-defaults, safe-lxml-parsing, secure-random, secure-flask-cookie, sandbox-process-creation, url-sandbox, upgrade-sslcontext-tls, limit-readline, django-json-response-type) with one result placed on the vulnerable call",
     ],
     "bounds": {
-        "quick": "calls with <= 3 arguments (thorough 4): per argument keyword selector {positional, verify, timeout, other} and star / '=' spacing selector, libcst-valid orderings without repeated keywords; 1-2 NewArgs with symbolic add_if_missing",
+        "quick": "calls with <= 3 arguments (thorough 4): per argument keyword selector {positional, verify, timeout, other} and star (none, *, **) / '=' spacing selector, libcst-valid orderings without repeated keywords; 1-2 NewArgs with symbolic add_if_missing",
         "thorough": "<= 4 arguments",
         "families": "4 import styles x 3-4 argument lists x 3 surroundings (x 3 layouts for the detector-driven family: one line, one argument per line with trailing comma, inside a function body); selectors are unbounded symbolic ints reduced by the harness",
     },
